@@ -311,7 +311,10 @@ def h2(ctx, R):
     prog = ctx.program
     # ---- H2 ----------------------------------------------------------------------
     ctx.rule("H2", "reset coverage: every Parser attribute written by a token handler is re-initialised by the reset; reset dominates the loop")
-    handlers = [f for f in R.Parser.methods.values() if f not in (R.reset, R.parse) and f.name not in ("__init__", "parse_file", "dump")]
+    running_ = {id(g.node) for g in R.reachable()}
+    # (a public method that parse() never runs - a configuration call made between parses - sets up the parser, it is not per-script state)
+    handlers = [f for f in R.Parser.methods.values() if f not in (R.reset, R.parse) and f.name not in ("__init__", "parse_file", "dump")
+                and (f.name.startswith("_") or id(f.node) in running_)]
     written = {}
     # the failure report (error, error_pos, ...): attributes stored only in parse()'s exception handlers and read nowhere else in the
     # parser describe the outcome of the last call; they are results, not state that a later parse could start from
@@ -723,6 +726,15 @@ def registry_readers(ctx, R, allowed=None):
                     continue
                 nread += 1
                 if f.qualname in allowed or f is R.reset:
+                    continue
+                # a public accessor that nothing in the package uses (an inspection aid for callers): it cannot influence a parse, a
+                # loader or the factory
+                if not f.name.startswith("_") and f.cls is not None and not any(
+                        (isinstance(x, ast.Attribute) and x.attr == f.name and not (isinstance(x.value, ast.Name) and (
+                            prog.cls(x.value.id) is not None or x.value.id == "cls")) and not (
+                            isinstance(x.value, ast.Attribute) and prog.cls(x.value.attr) is not None))
+                        for g in prog.all_funcs() if g is not f for x in ast.walk(g.node)):
+                    ctx.notice("H4", "%s exposes the registry to callers; nothing in the package reads it" % f.qualname)
                     continue
                 ctx.violation("H4", f, "registry-read:%s" % f.qualname, "%s reads the process-global extension registry: its result depends on which "
                               "script was parsed last, not on its own input" % f.qualname, node=n_,
